@@ -295,7 +295,7 @@ def run_fuzz(case):
                     actions_log.append("put")
                     ep.put(w.put_request())
                 elif act == "put":
-                    pk = rng.choice(["same", "empty", "md_only", "missing", "unknown_dest", "long_source_name", "long_dest_name"])
+                    pk = rng.choice(["same", "empty", "md_only", "missing", "unknown_dest", "long_source_name", "long_dest_name", "binary_msgs"])
                     if pk.startswith("long_") and w.cfg["fs"] != "mem":
                         pk = "same"  # (the host file system of the native filestore has its own limit per path component)
                     actions_log.append("put:" + pk)
@@ -305,6 +305,13 @@ def run_fuzz(case):
                         req = PutRequest(ByteFieldGenerator.from_int(2, 77), w.src_path, w.dst_req_path, None, None)
                     elif pk == "md_only":
                         req = PutRequest(w.dst_id, None, None, None, None)
+                    elif pk == "binary_msgs":
+                        # messages to user are arbitrary binary data (here: not UTF-8, longer than the reserved 'cfdp' prefix)
+                        from spacepackets.cfdp.tlv import MessageToUserTlv
+
+                        req = PutRequest(w.dst_id, w.src_path, w.dst_req_path, None, None,
+                                         msgs_to_user=[MessageToUserTlv(bytes(rng.randrange(128, 256) for _ in range(rng.choice([5, 6, 40])))) for _ in range(rng.choice([1, 3]))])
+                        obs["put_requests_with_binary_messages_to_user"] = obs.get("put_requests_with_binary_messages_to_user", 0) + 1
                     elif pk in ("long_source_name", "long_dest_name"):
                         # an existing file whose path name does not fit the 255 byte LV field of the Metadata PDU (or such a destination name)
                         long_path = w.root / "srcdir" / ("n" * rng.choice([230, 256, 300]))
@@ -448,4 +455,4 @@ def finalize(ctx):
     return [], inc
 
 
-REQUIRED = {"put_requests_with_over_long_names": 50, "pdus_together_with_timer_expiry": 500, "resets_with_undrained_queue": 500, "enumerated_sequences": 5000, "fuzz_cases": 200, "pdus_to_busy_handler": 2000, "admission_rejections_checked": 500, "loop_cases": 200, "calls_returned": 2000}
+REQUIRED = {"put_requests_with_binary_messages_to_user": 50, "put_requests_with_over_long_names": 50, "pdus_together_with_timer_expiry": 500, "resets_with_undrained_queue": 500, "enumerated_sequences": 5000, "fuzz_cases": 200, "pdus_to_busy_handler": 2000, "admission_rejections_checked": 500, "loop_cases": 200, "calls_returned": 2000}
